@@ -201,7 +201,7 @@ prop("C19",
 
 prop("C03",
      level="exploration",
-     parts=[{"engine": "chan", "race": True}],
+     parts=[{"engine": "chan", "race": True, "escalate_stalls": True, "max_escalations": 3}],
      floor={"quick": 150, "thorough": 2000},
      child_timeout={"quick": 900, "thorough": 3000},
      rule="Seeded adversary schedules over 2-4 live sessions (both handshake modes) with self-describing messages in both "
